@@ -5,6 +5,7 @@ Refuting events: a text node in expand() output that differs from the payload wr
 order of copies, a line missing / altered / duplicated at a $# site or at the deepest last
 element; supplied text interpreted as syntax."""
 import itertools
+import json
 import re
 
 from .. import core, enum, outparse, probes
@@ -138,7 +139,8 @@ class Mon:
 
     def wrap(self, shape, text, cls):
         ctx = self.ctx
-        abbr, builder = shape
+        abbr, builder = shape[:2]
+        snippets = shape[2] if len(shape) > 2 else None
         if '=$#' in abbr or '="$#' in abbr:
             if any('"' in l for l in ([text] if isinstance(text, str) else text)):
                 ctx.mon('workload:skipped-quote-in-attribute-site')
@@ -146,8 +148,13 @@ class Mon:
         ctx.ev(cls)
         exp = builder(text)
         case = {'part': 'wrap', 'abbr': abbr, 'text': text, 'expected': exp}
+        cfg = {'text': text if isinstance(text, str) else list(text), 'options': {'output.format': False}}
+        if snippets:
+            cfg['snippets'] = dict(snippets)
+            case['snippets'] = dict(snippets)
+            case['domain'] = 'd2-alias'
         ctx.mon('oracle:wrap-copies')
-        r = core.call(self.expand, abbr, {'text': text if isinstance(text, str) else list(text), 'options': {'output.format': False}})
+        r = core.call(self.expand, abbr, cfg)
         if r[0] == 'exc':
             ctx.violation('exception', case, {'exc': list(core.exc_site(r[1])), 'msg': str(r[1])[:100]})
             return
@@ -292,6 +299,15 @@ NAME_SHAPES = [
     ('x-l[$#=v]*', implicit(lambda l, i: el('x-l', [], [[l, '"v"']]))),
     ('x-u>x-l[$#="w" k=1]*>x-b', implicit(lambda l, i: el('x-l', el('x-b', []), [[l, '"w"'], ['k', '"1"']]), lambda inner: el('x-u', inner))),
     ('x-l[d-$#=v]*', implicit(lambda l, i: el('x-l', [], [['d-' + l, '"v"']]))),
+]
+# D2: the element that takes the text is written by a snippet name whose definition has a deeper last element (open finding: the text is put on the
+# alias before its definition replaces it, and then counts as text written on the alias - it lands on the top-level elements of the definition)
+ALIAS_TABLE = {'vrow': 'x-r>x-d', 'vli': 'x-l>x-k[h]', 'vtwo': 'x-m+x-n>x-o'}
+ALIAS_SHAPES = [
+    ('vrow', plain(lambda t: el('x-r', el('x-d', T(t)))), ALIAS_TABLE),
+    ('x-u>vli*', implicit(lambda l, i: el('x-l', el('x-k', T(l), [['h', '""']])), lambda inner: el('x-u', inner)), ALIAS_TABLE),
+    ('x-p>vrow', plain(lambda t: el('x-p', el('x-r', el('x-d', T(t))))), ALIAS_TABLE),
+    ('vtwo*', implicit(lambda l, i: el('x-m', []) + el('x-n', el('x-o', T(l)))), ALIAS_TABLE),
 ]
 NAME_LINES = ['a', 'a.', '!b', 'c.d', 'k!', 'e.f.', '!g.', 'data-x', 'x:y', 'h..']
 LINES = ['a', '', '  b  ', 'ul>li*3', '$#', '${1}', 'item $', '*', '{x}', '[a=b]', ' ', 'x y z', 'é ü', 'a\\b', '(c)+d^e', '$$@-3', '"q"', "it's", 'a{b}c',
@@ -548,6 +564,8 @@ def run_shard(desc, ctx):
             else:
                 text = [''.join(rng.choice(ALPHA) for _ in range(rng.randint(1, 12))).replace('<', '') for _ in range(rng.randint(1, 4))]
             mon.wrap(shape, text, 'wrap')
+        for _ in range(desc['wrap'] // 20):
+            mon.wrap(rng.choice(ALIAS_SHAPES), [rng.choice(['a', 'b c', 'x y z', 'd']) for _ in range(rng.randint(1, 3))] if rng.random() < 0.8 else 'one text', 'wrap:alias-d2')
         for _ in range(desc['wrap'] // 10):
             mon.wrap(rng.choice(NAME_SHAPES), [rng.choice(NAME_LINES) for _ in range(rng.randint(1, 4))], 'wrap:name-site')
     finally:
@@ -572,9 +590,23 @@ def replay(case, ctx):
             if act != case['expected']:
                 ctx.violation('text-not-verbatim', case, {'output': r[1][:200], 'actual': act})
     else:
-        shape = [s for s in SHAPES + NAME_SHAPES if s[0] == case['abbr']]
+        shape = [s for s in SHAPES + NAME_SHAPES + ALIAS_SHAPES if s[0] == case['abbr']]
         if shape:
             mon.wrap(shape[0], case['text'], 'replay')
 
 
-CLASSIFIERS = {}
+def _alias_text(rec):
+    """Wrap text is put on the deepest last element of the abbreviation AS WRITTEN; when that element is a snippet name, the definition replaces it
+    afterwards and treats the text like text written on the alias (it goes to the top-level elements of the definition).  Explains only the D2
+    alias shapes, and only when the output holds the same tags and the same texts as expected - placed elsewhere."""
+    c = rec['case']
+    if c.get('domain') != 'd2-alias' or rec['kind'] != 'wrap-text':
+        return False
+    e, a = rec['detail'].get('expected') or [], rec['detail'].get('actual') or []
+    key = lambda st: sorted(json.dumps(x, sort_keys=True) for x in st)
+    texts = lambda st: sorted(json.dumps(x[1]) for x in st if x[0] == 'text')
+    tags = lambda st: [x[:2] for x in st if x[0] != 'text']
+    return tags(e) == tags(a) and set(texts(e)) == set(texts(a)) and e != a        # (a definition with several top-level elements gets the text on each of them)
+
+
+CLASSIFIERS = {'C04-wrap-text-on-an-alias-stays-on-its-top-element': _alias_text}
